@@ -45,6 +45,10 @@ struct RunOut {
     trace: Vec<(String, u32)>,
     damaged: Option<String>,
     tail_ids: Vec<u64>,
+    /// id -> index of the family file (in stream order) that holds it
+    file_of: std::collections::HashMap<u64, usize>,
+    /// what is wrong with the output of the bystander writer, if anything
+    bystander: Option<String>,
 }
 
 fn run_history(
@@ -72,6 +76,39 @@ fn run_history(
         trace: Vec::new(),
         damaged: None,
         tail_ids: Vec::new(),
+        file_of: std::collections::HashMap::new(),
+        bystander: None,
+    };
+    // a bystander: a second, independent file writer used from the same thread, whose own file
+    // operations are exempt from the fault plan; whatever happens to the writer under test, the
+    // bystander's file must hold exactly the bystander's records
+    let by_dir = cfg.names.dir.with_file_name("bystander");
+    let _ = std::fs::remove_dir_all(&by_dir);
+    let bystander = ctl::exempt(|| {
+        flexi_logger::writers::FileLogWriter::builder(
+            flexi_logger::FileSpec::default()
+                .directory(&by_dir)
+                .basename("by")
+                .suppress_timestamp()
+                .suffix("log"),
+        )
+        .format(flw::fmt_raw)
+        .try_build()
+    })
+    .map_err(|e| format!("cannot build the bystander writer: {e:?}"))?;
+    let mut by_expected: Vec<u8> = Vec::new();
+    let mut by_seq = 0u64;
+    let mut by_write = |by_expected: &mut Vec<u8>| {
+        use flexi_logger::writers::LogWriter;
+        let m = flw::msg_id(7, 7, by_seq, 10);
+        by_seq += 1;
+        by_expected.extend_from_slice(m.as_bytes());
+        by_expected.push(b'\n');
+        ctl::exempt(|| {
+            flw::with_record(log::Level::Info, "flmon::bystander", &m, |r| {
+                let _ = bystander.write(&mut flexi_logger::DeferredNow::new(), r);
+            });
+        });
     };
     let mut seq = 0u64;
     let injected_len = || ctl::with_ctl(|c| c.injected.len());
@@ -88,6 +125,7 @@ fn run_history(
                     .count();
                 out.calls.push((seq, injected_from(before), errs));
                 seq += 1;
+                by_write(&mut by_expected);
             }
             Op::Trigger => {
                 let _ = driver.rotate();
@@ -96,6 +134,7 @@ fn run_history(
                     .filter(|l| l.contains("ERRCODE"))
                     .count();
                 out.triggers.push((injected_from(before), errs));
+                by_write(&mut by_expected);
             }
             Op::Flush => {
                 driver.flush();
@@ -114,6 +153,15 @@ fn run_history(
         seq += 1;
     }
     driver.shutdown();
+    by_write(&mut by_expected);
+    ctl::exempt(|| {
+        use flexi_logger::writers::LogWriter;
+        bystander.shutdown();
+    });
+    let by_got = std::fs::read(by_dir.join("by.log")).unwrap_or_default();
+    if let Some(d) = flw::diff_bytes(&by_expected, &by_got) {
+        out.bystander = Some(d);
+    }
     out.trace = ctl::with_ctl(|c| {
         c.trace
             .iter()
@@ -130,6 +178,13 @@ fn run_history(
             // twins may coexist after a compression fault
             let mut i = 0;
             let mut stream = Vec::new();
+            let mut note_ids = |idx: usize, c: &[u8], file_of: &mut std::collections::HashMap<u64, usize>| {
+                for line in String::from_utf8_lossy(c).split('\n') {
+                    if let Some((0, 0, s)) = flw::parse_msg_id(line) {
+                        file_of.insert(s, idx);
+                    }
+                }
+            };
             while i < obs.family.len() {
                 let f = &obs.family[i];
                 let twin = obs
@@ -140,11 +195,15 @@ fn run_history(
                     let plain = if f.entry.gz { g } else { f };
                     if let Ok(c) = &plain.content {
                         stream.extend_from_slice(c);
+                        note_ids(i, c, &mut out.file_of);
                     }
                     i += 2;
                 } else {
                     match &f.content {
-                        Ok(c) => stream.extend_from_slice(c),
+                        Ok(c) => {
+                            stream.extend_from_slice(c);
+                            note_ids(i, c, &mut out.file_of);
+                        }
                         Err(e) => out.damaged = Some(format!("{}: {e}", f.entry.name)),
                     }
                     i += 1;
@@ -356,6 +415,47 @@ pub fn run_case(ctx: &mut CaseCtx) -> CaseResult {
         if let Some(d) = &out.damaged {
             res.violate("damaged-output", format!("C19/damaged-output/{facts}"), format!("{ctxt}: {d}"));
             break;
+        }
+        if let Some(d) = &out.bystander {
+            res.violate(
+                "other-writer-disturbed",
+                format!("C19/other-writer-disturbed/{facts}"),
+                format!("{ctxt}: the file of an independent second file writer, used from the same thread and not hit by any fault, is not what was written to it: {d}"),
+            );
+            break;
+        }
+        // a fault in the cleanup of old files (remove, compress) is no reason to close the
+        // current file at another point: records share a file iff they do in the fault-free run
+        if name.starts_with("cleanup_") || name.starts_with("gz_") {
+            let common: Vec<u64> = out
+                .ids
+                .iter()
+                .copied()
+                .filter(|i| base.file_of.contains_key(i) && out.file_of.contains_key(i))
+                .collect();
+            res.count("partition_pairs_compared_under_cleanup_faults", common.len().saturating_sub(1) as u64);
+            for w in common.windows(2) {
+                let same_base = base.file_of[&w[0]] == base.file_of[&w[1]];
+                let same_here = out.file_of[&w[0]] == out.file_of[&w[1]];
+                if same_base != same_here {
+                    res.violate(
+                        "partition-changed-by-cleanup-fault",
+                        format!("C19/partition-changed-by-cleanup-fault/{facts}"),
+                        format!(
+                            "{ctxt}: records {} and {} are {} without the fault and {} with it (size criterion {:?})",
+                            w[0],
+                            w[1],
+                            if same_base { "in one file" } else { "in different files" },
+                            if same_here { "in one file" } else { "in different files" },
+                            cfg.crit
+                        ),
+                    );
+                    break;
+                }
+            }
+            if res.verdict != Verdict::Held {
+                break;
+            }
         }
         // which records may be missing: own write failed, or (re-)initialisation failed
         let mut may_miss: Vec<u64> = Vec::new();
